@@ -79,6 +79,42 @@ def make_float(s):
         raise NotImplementedError(str(s))
 
 
+def f64_from_bits(bits: int) -> float:
+    """Make the float with the given bits"""
+    return struct.unpack("<d", struct.pack("<Q", bits))[0]
+
+
+def f64_to_bits(value: float) -> int:
+    """Give the bits of the given float"""
+    return struct.unpack("<Q", struct.pack("<d", value))[0]
+
+
+def f32_from_bits(bits: int) -> float:
+    """Make the float with the value of the f32 with the given bits.
+
+    A nan is widened by hand to keep its sign and its whole payload:
+    a conversion sets the quiet bit of a signalling nan.
+    """
+    if bits & 0x7FFFFFFF > 0x7F800000:
+        sign, payload = bits & 0x80000000, bits & 0x7FFFFF
+        return f64_from_bits(sign << 32 | 0x7FF << 52 | payload << 29)
+    else:
+        return struct.unpack("<f", struct.pack("<I", bits))[0]
+
+
+def f32_to_bits(value: float) -> int:
+    """Give the bits of the f32 with the given value.
+
+    This is the reverse of f32_from_bits.
+    """
+    if math.isnan(value):
+        bits = f64_to_bits(value)
+        payload = bits >> 29 & 0x7FFFFF or 0x400000
+        return bits >> 32 & 0x80000000 | 0x7F800000 | payload
+    else:
+        return struct.unpack("<I", struct.pack("<f", value))[0]
+
+
 class SlugTable:
     """A translation table which allows simple ascii characters."""
 
